@@ -69,7 +69,7 @@ const CODE_LIKE: [&str; 12] = [
 
 const MB_WS: [&str; 3] = ["\u{00A0}", "\u{2003}", "\u{3000}"];
 
-fn random_gap(rng: &mut Rng, ws_only: bool, must_separate: bool, out: &mut String, kinds: &mut Vec<&'static str>) {
+fn random_gap(rng: &Rng, ws_only: bool, must_separate: bool, out: &mut String, kinds: &mut Vec<&'static str>) {
     let n = if must_separate { rng.range(1, 3) } else { rng.range(0, 2) };
     let mut wrote = false;
     for _ in 0..n {
@@ -140,7 +140,7 @@ fn random_gap(rng: &mut Rng, ws_only: bool, must_separate: bool, out: &mut Strin
     }
 }
 
-pub fn lay(toks: &[Tok], layout: Layout, rng: &mut Rng) -> (Laid, Vec<&'static str>) {
+pub fn lay(toks: &[Tok], layout: Layout, rng: &Rng) -> (Laid, Vec<&'static str>) {
     let mut text = String::new();
     let mut off = Vec::with_capacity(toks.len());
     let mut kinds: Vec<&'static str> = vec![];
